@@ -223,7 +223,8 @@ def c03_oracle(ops, outs):
     for out in outs[1:]:
         if out.startswith("fail:"): return [("harness-" + out.split(" ")[0][5:45], out[:100])]
     rights = kv(ops[0])[1].get("rights", "").split(",")
-    for room, rounds, quiet, f, peers in final_settles(ops, outs):
+    for room0, rounds, quiet, f, peers in final_settles(ops, outs):
+      for room in (["1", "2"] if room0 == "0" else [room0]):
         if not quiet:
             res.append(("no-quiescence", "room %s: %d rounds and still changing" % (room, rounds)))
             continue
@@ -241,8 +242,8 @@ def c03_oracle(ops, outs):
                     res.append((_classify_edges(room, peers), "room %s: peers 0 and %d show different references" % (room, i)))
                     found = True
                     break
-        if f != 0 and not found:
-            res.append(("quiet-round-still-requests-rows", "room %s: the round that changed nothing requested %d rows" % (room, f)))
+        if f != 0 and not found and room in ("1", room0):
+            res.append(("quiet-round-still-requests-rows", "room %s: the round that changed nothing requested %d rows" % (room0, f)))
     return res
 
 
@@ -278,9 +279,12 @@ def _classify_edges(room, peers):
     """a reference held by some peers only, whose source row is the same version everywhere: the reference was
     added concurrently with a later update of the row, and references travel only with fetched rows"""
     es = [set(p.visible_edges(room)) for p in peers]
+    dead = {t["id"] for p in peers for t in p.ntombs}
     for e in set().union(*es):
         if all(e in s for s in es): continue
         src = e[0]
+        if src in dead or e[1] in dead:
+            return "reference-of-deleted-row-differs"
         vers = {p.nodes[src]["sig"] for p in peers if src in p.nodes}
         if len(vers) == 1 and all(int(e[2]) < p.nodes[src]["mdate"] for p in peers if src in p.nodes):
             return "reference-older-than-winning-version-not-propagated"
@@ -322,7 +326,7 @@ def c11_oracle(ops, outs):
         for pi, p in enumerate(peers):
             for q in peers:
                 for t in q.ntombs:
-                    if t["room"] != room: continue
+                    if room != "0" and t["room"] != room: continue
                     if not any(u["id"] == t["id"] and u["sig"] == t["sig"] for u in p.ntombs) and ("rec", t["id"]) not in seen:
                         seen.add(("rec", t["id"]))
                         res.append(("deletion-record-missing-after-quiescence", "room %s: peer %d lacks a deletion record of row %s" % (room, pi, t["id"])))
